@@ -463,6 +463,10 @@ func run() int {
 				cp.Subst[k] = v
 			}
 			for from, to := range e.Subst {
+				if to == "" { // this entry runs the real function
+					delete(cp.Subst, from)
+					continue
+				}
 				f := findFunc(prog, to)
 				if f == nil {
 					fatal(fmt.Errorf("subst target %s not found", to))
